@@ -1630,6 +1630,18 @@ class MasterSim(enginemod.Engine):
                 'the watcher/queue discipline of Master.watch is modelled by '
                 'the harness, not executed']
 
+    def irrelevant_probes(self, prop):
+        out = {'integrity_repairs', 'schedule_once_removed', 'server_reloads'}
+        if prop != 'C10':
+            out |= {'crash_variants', 'crash_mid_publication',
+                    'double_crash_variants'}
+        if prop != 'C11':
+            out |= {'restart_probes', 'restart_probes_strong',
+                    'entries_strong'}
+        if prop not in ('C09', 'C10'):
+            out |= {'placements_checked'}
+        return out
+
     def quick_runs(self, prop):
         return {'C09': 3200, 'C10': 160, 'C11': 1600}.get(prop, 1600)
 
